@@ -201,7 +201,7 @@ func (l c18) Exec(env *core.Env) *core.Result {
 			if a == nil {
 				a = map[string]any{}
 			}
-			for k := range a {
+			for _, k := range world.SortedKeys(a) { // the first key in sorted order (never map order: replayable)
 				if fault == "drop-annotation" {
 					delete(a, k)
 				} else if fault == "alter-annotation" {
@@ -331,6 +331,9 @@ func (l c18) Exec(env *core.Env) *core.Result {
 				annots := map[string]string{}
 				for i := int64(0); i < op.Int(3); i++ {
 					annots[fmt.Sprintf("org.example/%d", i)] = fmt.Sprintf("v%d-%d", oi, i)
+					if i == 0 && op.Int(4)%3 == 0 {
+						annots["org.example/0"] = "" // an annotation that is present with an empty value
+					}
 				}
 				var want ocispec.Descriptor
 				var sig []byte
